@@ -152,6 +152,11 @@ def run(ctx):
     ctx.cov['reward_bound_offers_on_ledger_states'] = nr
     for key, what in rbad:
         ctx.violation(key, what, {'kind': 'reward-context'})
+    (nn, nbad), = ctx.pmap(_node_reward_worker, [0, 1])[:1]
+    evals += nn
+    ctx.cov['reward_bound_offers_to_a_node_with_pending_fees'] = nn
+    for key, what in nbad:
+        ctx.violation(key, what, {'kind': 'reward-node'})
     na, abad = validator_amount_limits()
     evals += na
     for key, what in abad:
@@ -267,6 +272,46 @@ def _reward_bound_worker(_):
     return n, out[:4]
 
 
+def _node_reward_worker(_):
+    """the reward bound on a running node: fee-paying transactions are pending in the node's pool (admitted through the
+    network handler / the local entry point, some of them refused) when a peer relays a block on the head that does NOT
+    contain them; its reward may be subsidy(height) and not a unit more, however much the pending transactions would pay"""
+    from . import c13
+    from .. import ledger, refmodel, world
+    from ..world import K
+    from skepticoin.networking.messages import DataMessage, DATA_BLOCK, DATA_TRANSACTION
+    out = []
+    n = 0
+    c13.setup_worker()
+    for entry in ('local', 'network'):
+        for extra in (0, 1, 'fee', 'fees-of-both'):
+            w = c13.World()
+            H = w.head()
+            ta = ledger.tx_payload(H, 'a')[0][0]          # fee 1000
+            tc = ledger.tx_payload(H, 'c')[0][0]          # fee 3
+            for t in (ta, tc):
+                if entry == 'local':
+                    w.node.cm.add_transaction_to_pool(t)
+                else:
+                    w.peer().send(DataMessage(DATA_TRANSACTION, t))
+            if len(w.pool()) != 2:
+                out.append(('harness', 'fee-paying transactions not admitted'))
+                continue
+            sub = refmodel.subsidy(H.height + 1)
+            claim = sub + {0: 0, 1: 1, 'fee': 1000, 'fees-of-both': 1003}[extra]
+            blk = world.assemble(H, [], K[5], H.ts + 120, cb_outs=[(claim, K[5])], cb_data=b'claims pending fees')
+            w.net.clock.t = max(w.net.clock.t, H.ts + 200)
+            before = w.node.cm.coinstate.current_chain_hash
+            w.peer().send(DataMessage(DATA_BLOCK, world.from_wire(blk)))
+            n += 1
+            accepted = refmodel.enc.blockid(blk) in w.node.cm.coinstate.block_by_hash
+            if accepted != (extra == 0):
+                out.append(('validator-reward-bound', "a node with two fee-paying transactions (fees 1000 and 3) pending (%s entry point) "
+                            "is relayed an EMPTY block on its head whose reward is subsidy + %d: %s" % (
+                                entry, claim - sub, 'accepted' if accepted else 'refused')))
+    return n, out[:4]
+
+
 def validator_amount_limits():
     """the maximum supply is the upper limit the validator places on ANY amount: every output list of length 1..4 over a
     boundary alphabet (and a few longer ones) is offered to the stand-alone transaction validator; it must be accepted
@@ -357,6 +402,8 @@ def replay(data, ctx):
         out += [(k, w) for k, w, h in vbad]
     elif data['kind'] == 'reward-context':
         out += _reward_bound_worker(0)[1]
+    elif data['kind'] == 'reward-node':
+        out += _node_reward_worker(0)[1]
     elif data['kind'] == 'amounts':
         na, abad = validator_amount_limits()
         out += abad
